@@ -36,6 +36,7 @@ def check(ctx):
     ctx.rule("R4", "raw bytes are recorded before shaping; only CR/CRLF->LF, decode and escape stripping are applied; the trailing newline is stripped only for one-line output", floor=5)
     ctx.rule("R5", "the reported return code is read from the last stage", floor=1)
     ctx.rule("R7", "writers that share the capture pipe through different layers (text dispatcher, raw buffer) never leave text pending", floor=3)
+    ctx.rule("R8", "the reader ends of the pipes between stages are closed only once the last stage is over: every call of the closer that releases them is made where the last stage is known to have finished (an alias stage runs on a thread of this process and reads through the very descriptor)", floor=3)
     ctx.rule("R6", "captured stdout is not echoed to the terminal and stderr is not mixed into a stdout capture", floor=3)
 
     rd = ctx.repo.module(RD)
@@ -297,6 +298,59 @@ def check(ctx):
         ok, path = tcfg.must_pass([w], lambda m: m in tf, exits=("exit",), skip_edge=lambda a_, b_, l_: l_ == "exc") if tf else (False, None)
         ctx.ob("R7", f"{PL}:CommandPipeline.tee_stdout", f"`{short(w.ast, 50)}` is followed by a flush of the target before the next line", ok, key="tee|echo-not-flushed", where=loc(w.ast))
 
+    _reader_ends(ctx)
+
+
+TERMINAL_CLEANUP = {
+    "CommandPipeline._end": "the pipeline is being ended: tee_stdout() has run the last stage to completion or an exception is unwinding",
+}
+
+
+def _reader_ends(ctx):
+    plm = ctx.repo.module(PL)
+    # the closers that release reader ends of the inter-stage pipes of the *earlier* stages
+    closers = set()
+    for q, fn in plm.functions():
+        if not q.startswith("CommandPipeline."):
+            continue
+        for c in calls_in(fn):
+            if isinstance(c.func, ast.Attribute) and c.func.attr in ("close_reader", "close") and not c.args:
+                # receiver ranges over <stage>.pipe_channels of specs[:-1] / procs[:-1]
+                loop = next((a for a in ancestors(c) if isinstance(a, ast.For) and "pipe_channels" in unparse(a.iter)), None)
+                outer = next((a for a in ancestors(c) if isinstance(a, ast.For) and ":-1]" in unparse(a.iter)), None)
+                if loop is not None and outer is not None:
+                    closers.add(q.split(".")[-1])
+    if not closers:
+        raise AnchorMissing(f"{PL}: no method that closes the reader ends of the earlier stages' pipes")
+    n = 0
+    for q, fn in plm.functions():
+        fcfg = None
+        for c in calls_in(fn):
+            nm = call_name(c) or ""
+            if nm.split(".")[-1] not in closers or q.split(".")[-1] in closers:
+                continue
+            n += 1
+            st = f"{PL}:{q}"
+            if q in TERMINAL_CLEANUP:
+                ctx.ob("R8", st, f"`{short(c)}`: {TERMINAL_CLEANUP[q]}", True, key=f"{q}|reader-ends-closed-while-last-stage-runs", where=loc(c))
+                continue
+            fcfg = fcfg or CFG(fn)
+            facts = set()
+            for nd in fcfg.nodes_of(stmt_of(c)):
+                facts |= nfacts(fcfg, nd)
+            # a local holding a poll() result counts like the call itself
+            fdefs = df.all_defs(fn)
+            pollvars = {nm_ for nm_, ds_ in fdefs.items() if ds_ and all(d_.kind == "assign" and isinstance(d_.value, ast.Call) and last_attr(d_.value) == "poll" for d_ in ds_)}
+
+            def is_poll_none(t):
+                return t.endswith(".poll() is None") or (t.endswith(" is None") and t[: -len(" is None")] in pollvars)
+
+            over = any(is_poll_none(t) and not pol for t, pol in facts)
+            running = [t for t, pol in facts if is_poll_none(t) and pol]
+            ctx.ob("R8", st, f"`{short(c)}` is reached only where the last stage's poll() is known not to be None", over and not running, key=f"{q}|reader-ends-closed-while-last-stage-runs", where=loc(c), detail="facts: " + "; ".join(sorted(("" if pol else "not ") + t for t, pol in facts))[:300])
+    if n < 3:
+        raise AnalysisError(f"{PL}: only {n} call sites of {sorted(closers)} found")
+
 
 META = {
     "technique": "static analysis: typestate (no put after close), boolean-structure check of the EOF predicate, CFG dominance / must-pass-through for drain-after-wait and close-before-drain, operation whitelist on the shaping path",
@@ -314,4 +368,5 @@ META = {
     "dispatcher flushes every write unconditionally and every raw echo is followed by a flush (two layers share "
     "the capture pipe while an alias runs).",
     "note": "Decides the listed structural clauses, not the behaviour; marginal reach by design (DESIGN section 4).",
+    "more": 'Also decided: the reader ends of the inter-stage pipes are closed only where the last stage is known to be over (an alias stage reads through the descriptor in this process).',
 }
